@@ -29,32 +29,33 @@ Proof. destruct a as [[|]|], b as [[|]|], c as [[|]|]; reflexivity. Qed.
 
 Section S.
 Variable r : row.
+Variable pl : list rval.   (* the values bound to placeholders: irrelevant for inline SQL, used by Proofs/SqlSemProofP.v *)
 
-Fixpoint go_and (l : list ast) : option bool := match l with [] => Some true | x :: rest => opt_and (ssem r [] x) (go_and rest) end.
-Fixpoint go_or (l : list ast) : option bool := match l with [] => Some false | x :: rest => opt_or (ssem r [] x) (go_or rest) end.
-Lemma ssem_and l : ssem r [] (ABool true l) = go_and l. Proof. reflexivity. Qed.
-Lemma ssem_or l : ssem r [] (ABool false l) = go_or l. Proof. reflexivity. Qed.
-Lemma go_and_app xs y : go_and (xs ++ [y])%list = opt_and (go_and xs) (ssem r [] y).
+Fixpoint go_and (l : list ast) : option bool := match l with [] => Some true | x :: rest => opt_and (ssem r pl x) (go_and rest) end.
+Fixpoint go_or (l : list ast) : option bool := match l with [] => Some false | x :: rest => opt_or (ssem r pl x) (go_or rest) end.
+Lemma ssem_and l : ssem r pl (ABool true l) = go_and l. Proof. reflexivity. Qed.
+Lemma ssem_or l : ssem r pl (ABool false l) = go_or l. Proof. reflexivity. Qed.
+Lemma go_and_app xs y : go_and (xs ++ [y])%list = opt_and (go_and xs) (ssem r pl y).
 Proof.
   induction xs as [|x xs IH]; cbn [app go_and].
   - rewrite opt_and_true_r, opt_and_true_l. reflexivity.
   - rewrite IH. apply opt_and_assoc.
 Qed.
-Lemma go_or_app xs y : go_or (xs ++ [y])%list = opt_or (go_or xs) (ssem r [] y).
+Lemma go_or_app xs y : go_or (xs ++ [y])%list = opt_or (go_or xs) (ssem r pl y).
 Proof.
   induction xs as [|x xs IH]; cbn [app go_or].
-  - rewrite opt_or_false_r. destruct (ssem r [] y) as [[|]|]; reflexivity.
+  - rewrite opt_or_false_r. destruct (ssem r pl y) as [[|]|]; reflexivity.
   - rewrite IH. apply opt_or_assoc.
 Qed.
 
-Lemma ssem_mk_and a b : ssem r [] (mk_and a b) = opt_and (ssem r [] a) (ssem r [] b).
+Lemma ssem_mk_and a b : ssem r pl (mk_and a b) = opt_and (ssem r pl a) (ssem r pl b).
 Proof.
   unfold mk_and. destruct a; try (rewrite ssem_and; cbn [go_and]; rewrite opt_and_true_r; reflexivity).
   destruct isand.
   - rewrite !ssem_and. apply go_and_app.
   - rewrite ssem_and. cbn [go_and]. rewrite opt_and_true_r. reflexivity.
 Qed.
-Lemma ssem_mk_or a b : ssem r [] (mk_or a b) = opt_or (ssem r [] a) (ssem r [] b).
+Lemma ssem_mk_or a b : ssem r pl (mk_or a b) = opt_or (ssem r pl a) (ssem r pl b).
 Proof.
   unfold mk_or. destruct a; try (rewrite ssem_or; cbn [go_or]; rewrite opt_or_false_r; reflexivity).
   destruct isand.
@@ -63,29 +64,29 @@ Proof.
 Qed.
 
 (* constants *)
-Lemma const_operand lf tc ac : const_sql lf = Some (tc, ac) -> const_side lf = true -> operand r [] ac = leaf_const lf.
+Lemma const_operand lf tc ac : const_sql lf = Some (tc, ac) -> const_side lf = true -> operand r pl ac = leaf_const lf.
 Proof.
   destruct lf as [l op rt b fz]. destruct l; try discriminate; destruct op; try discriminate; destruct rt; try discriminate; cbn [const_sql const_side]; intros C Sd; inversion C; subst.
-  - rewrite (int_operand r [] z Sd). reflexivity.
+  - rewrite (int_operand r pl z Sd). reflexivity.
   - cbn [operand leaf_const]. rewrite sstr_str. reflexivity.
 Qed.
 
-Lemma col_operand f : operand r [] (ACol (str f)) = r f.
+Lemma col_operand f : operand r pl (ACol (str f)) = r f.
 Proof. cbn [operand]. rewrite sstr_str. reflexivity. Qed.
 
 Definition cmp_of_op (op : operator) : option cmpop :=
   match op with Equals => Some CEq | Greater => Some CGt | Less => Some CLt | GreaterEq => Some CGe | LessEq => Some CLe | _ => None end.
 
 Lemma cmp_sem o c f lf tc ac : cmp_of o = Some c -> const_sql lf = Some (tc, ac) -> const_side lf = true ->
-  ssem r [] (AOp (str o) (ACol (str f)) ac) = cmp_leaf r c f (VExp lf).
+  ssem r pl (AOp (str o) (ACol (str f)) ac) = cmp_leaf r c f (VExp lf).
 Proof.
   intros Ho C Sd. cbn [ssem]. rewrite sstr_str, Ho. unfold cmp2. rewrite col_operand, (const_operand lf tc ac C Sd). reflexivity.
 Qed.
 
 (* value lists *)
 Fixpoint go_in (x : ast) (l : list ast) : option bool :=
-  match l with [] => Some false | y :: rest => opt_or (cmp2 r [] CEq x y) (go_in x rest) end.
-Lemma ssem_in x l : ssem r [] (AIn x l) = go_in x l.
+  match l with [] => Some false | y :: rest => opt_or (cmp2 r pl CEq x y) (go_in x rest) end.
+Lemma ssem_in x l : ssem r pl (AIn x l) = go_in x l.
 Proof. induction l as [|y l IH]; [reflexivity|]. cbn [go_in]. rewrite <- IH. reflexivity. Qed.
 Lemma in_sem f : forall l ts as_, consts_sql l = Some (ts, as_) -> forallb const_side l = true ->
   go_in (ACol (str f)) as_ = in_list r f l.
@@ -107,7 +108,7 @@ Proof.
   unfold sql_meta_free in Hc. rewrite E1, E2, !orb_false_r in Hc. apply negb_true_iff in Hc. exact Hc.
 Qed.
 Lemma like_sem f p : pattern_side p = true ->
-  ssem r [] (ASimilar (ACol (str f)) (AStr (str (translate p)))) = match r f with Some (RStr s) => Some (wild_match p s) | _ => None end.
+  ssem r pl (ASimilar (ACol (str f)) (AStr (str (translate p)))) = match r f with Some (RStr s) => Some (wild_match p s) | _ => None end.
 Proof.
   unfold pattern_side. intros H. apply andb_true_iff in H. destruct H as [Hw Hm].
   cbn [ssem]. rewrite col_operand. cbn [operand]. rewrite sstr_str.
@@ -122,7 +123,7 @@ Proof.
   destruct l; try discriminate; destruct op; try discriminate; destruct rt; try discriminate. cbn. intros H. inversion H; subst. eauto.
 Qed.
 Lemma bound_sem c o f v z : cmp_of o = Some c -> int_bound v = Some z -> bound_side v = true ->
-  ssem r [] (AOp (str o) (ACol (str f)) (int_ast z)) = cmp_leaf r c f v.
+  ssem r pl (AOp (str o) (ACol (str f)) (int_ast z)) = cmp_leaf r c f v.
 Proof.
   intros Ho B Sd. destruct (int_bound_inv v z B) as [b [fz ->]].
   apply (cmp_sem o c f (E (VInt z) Literal VNil b fz) (int_toks z) (int_ast z) Ho eq_refl Sd).
@@ -131,7 +132,7 @@ Lemma int_bound_not_star v z : int_bound v = Some z -> is_star v = false.
 Proof. intros B. destruct (int_bound_inv v z B) as [b [fz ->]]. reflexivity. Qed.
 
 (* ---- the theorem ---- *)
-Theorem tr_sem_sz : forall n e, esize e <= n -> forall ts a, tr e = Some (ts, a) -> side e = true -> ssem r [] a = qsem r e.
+Theorem tr_sem_sz : forall n e, esize e <= n -> forall ts a, tr e = Some (ts, a) -> side e = true -> ssem r pl a = qsem r e.
 Proof.
   induction n as [|n IH]; intros e Hn ts a T Sd; [destruct e; cbn in Hn; lia|].
   destruct e as [l op rt b fz]. cbn [esize] in Hn. cbn [tr] in T.
@@ -213,7 +214,7 @@ Proof.
     cbn [qsem]. rewrite Fl. rewrite ssem_in. apply (in_sem f (x :: lits) cts cas C Sd).
 Qed.
 
-Theorem tr_sem e ts a : tr e = Some (ts, a) -> side e = true -> ssem r [] a = qsem r e.
+Theorem tr_sem e ts a : tr e = Some (ts, a) -> side e = true -> ssem r pl a = qsem r e.
 Proof. intros T Sd. apply (tr_sem_sz (esize e) e (le_n _) ts a T Sd). Qed.
 End S.
 
